@@ -145,6 +145,21 @@ def clamps(F, R):
         R.check(want in kinds, 'B.C13.clamp', 'anchor-kind:' + want, 'no %s site recognised (fail closed)' % want)
 
 
+def _positive_by_shape(d):
+    """`c + |x|` with a positive literal c: at least c, whatever x is (the soft clip's `1 + |x|`)."""
+    from ..paths import parse_term
+    nm, args = parse_term(d)
+    if nm != 'Add' or not args or len(args) != 2:
+        return False
+    for c, x in (args, args[::-1]):
+        try:
+            if float(c) > 0.0 and parse_term(x)[0].endswith('::abs'):
+                return True
+        except ValueError:
+            pass
+    return False
+
+
 def zero_div(F, R):
     """No float division whose divisor derives from Decibels::as_amplitude without a zero test."""
     n = 0
@@ -162,13 +177,13 @@ def zero_div(F, R):
             cp = callee_path(t) or ''
             if cp.endswith('::div_assign') or cp.endswith('::div'):
                 d = describe(b, t['args'][1], depth=6, at=bb)
-                if 'Decibels::as_amplitude(' in d:
+                if 'Decibels::as_amplitude(' in d and not _positive_by_shape(d):
                     sites.append((bb, d))
                     div_ops[bb] = t['args'][1]
         for bb, si, s in b.stmts():
             if s['k'] == 'assign' and s['rv']['k'] == 'bin' and s['rv']['op'] == 'Div':
                 d = describe(b, s['rv']['b'], depth=6, at=bb)
-                if 'Decibels::as_amplitude(' in d:
+                if 'Decibels::as_amplitude(' in d and not _positive_by_shape(d):
                     sites.append((bb, d))
                     div_ops[bb] = s['rv']['b']
         if not sites:
